@@ -123,18 +123,34 @@ Verdict compareResult(Ctx* c, const Model& m, const std::set<size_t>& expected, 
 
 struct Sel { std::vector<int> idx; bool empty{false}; bool missing{false}; bool close{false}; };
 
-Verdict runCase(Ctx& c, bool maxPart, const sgen::Spec& sp, const Sel& sel, uint64_t idSeed) {
+// edits applied to the source schema after it was built and before the extraction (sub-properties *_edited): the
+// extraction must see the schema as it is now, however it got there
+struct PreEdit { int kind{0}, a{0}, b{0}; bool flag{false}; };
+Verdict runCase(Ctx& c, bool maxPart, const sgen::Spec& sp, const Sel& sel, uint64_t idSeed, const std::vector<PreEdit>& edits = {}) {
   sgen::debugShow(c);
   c.exec();
   ccl::tools::EntityGenerator::VerifSeed(idSeed * 7919ULL + 13ULL);
   RSForm schema;
   std::vector<EntityUID> uids;
   if (!sgen::build(schema, sp, uids)) return pbt::discard("alias prediction failed");
+  for (const auto& e : edits) {
+    const auto A = uids[static_cast<size_t>(e.a) % uids.size()], B = uids[static_cast<size_t>(e.b) % uids.size()];
+    if (!schema.Contains(A) || !schema.Contains(B)) continue;
+    const std::string aliasA = schema.GetRS(A).alias, aliasB = schema.GetRS(B).alias;
+    switch (e.kind) {
+      case 0:  // exchange the aliases of two constituents of one kind, mentions untouched: every mention now means the other one
+        if (A != B && aliasA[0] == aliasB[0]) { const std::string tmp = std::string(1, aliasA[0]) + "77"; if (schema.SetAliasFor(A, tmp, false)) { schema.SetAliasFor(B, aliasA, false); schema.SetAliasFor(A, aliasB, false); c.label("pre-edit:alias-exchange"); } }
+        break;
+      case 1: if (schema.SetAliasFor(A, std::string(1, aliasA[0]) + std::to_string(40 + e.b), e.flag)) c.label(e.flag ? "pre-edit:rename-with-substitution" : "pre-edit:rename-leaving-mentions"); break;
+      case 2: if (schema.GetRS(A).type != CstType::base && schema.GetRS(A).type != CstType::constant && schema.SetExpressionFor(A, aliasB)) c.label("pre-edit:definition"); break;  // base sets carry no definition
+      default: if (schema.Erase(A)) c.label("pre-edit:erase"); break;
+    }
+  }
   const Snap before = sgen::snapshot(schema);
   const Model m(before);
   // selection as row indices of the snapshot
   std::set<size_t> selRows;
-  if (!sel.empty) for (int i : sel.idx) selRows.insert(before.byUid.at(uids[static_cast<size_t>(i)]));
+  if (!sel.empty) for (int i : sel.idx) if (auto it = before.byUid.find(uids[static_cast<size_t>(i)]); it != before.byUid.end()) selRows.insert(it->second);
   if (sel.close) selRows = m.closure(selRows);
   SetOfEntities args;
   for (auto i : selRows) args.insert(before.rows[i].uid);
@@ -206,6 +222,19 @@ Verdict propRandom(Ctx& c, bool maxPart) {
 }
 Verdict propBasis(Ctx& c) { return propRandom(c, false); }
 Verdict propMaxPart(Ctx& c) { return propRandom(c, true); }
+Verdict propEdited(Ctx& c) {
+  const bool maxPart = c.coin();
+  const uint64_t idSeed = static_cast<uint64_t>(c.pick(0, 9999));
+  sgen::GenOpts o; o.minRest = 2; o.maxRest = 6; o.maxMoves = 3;
+  const auto sp = sgen::genSpec(c, o);
+  const Sel s = genSel(c, sp, maxPart);
+  std::vector<PreEdit> edits;
+  const int k = c.ipick(1, 3);
+  for (int i = 0; i < k; ++i) { PreEdit e; const int w = c.ipick(0, 9); e.kind = w < 5 ? 0 : w < 7 ? 1 : w < 9 ? 2 : 3; e.a = c.ipick(0, 11); e.b = c.ipick(0, 11); e.flag = c.coin(); edits.push_back(e); }
+  showCase(c, maxPart ? "maxpart (edited source)" : "basis (edited source)", sp, s, idSeed);
+  c.show << "\n  pre-edits:"; for (auto& e : edits) c.show << " " << (e.kind == 0 ? "exchange-aliases" : e.kind == 1 ? (e.flag ? "rename+subst" : "rename") : e.kind == 2 ? "set-definition" : "erase") << "(#" << e.a << ",#" << e.b << ")";
+  return runCase(c, maxPart, sp, s, idSeed, edits);
+}
 
 // exhaustive: X1 and three terms, every definition from {empty, X1, Da, Db, Da∪Db} (a, b = the other two terms), every non-empty selection
 Verdict propEnum(Ctx& c, bool maxPart) {
@@ -232,6 +261,7 @@ int main(int argc, char** argv) {
   std::vector<pbt::Prop> props;
   props.push_back({"enum_basis3", propEnumBasis, 0, 0, true, false, "X1 + three terms, every definition from {empty, X1, Da, Db, Da∪Db}, every selection: basis"});
   props.push_back({"enum_maxpart3", propEnumMaxPart, 0, 0, true, false, "X1 + three terms, every definition from {empty, X1, Da, Db, Da∪Db}, every selection: maximal part"});
+  props.push_back({"edited_source", propEdited, 1500, 20000, false, false, "the same after 1-3 edits of the built source schema: alias exchange / rename leaving the mentions, rename with substitution, definition edit, erase"});
   props.push_back({"basis", propBasis, 1500, 24000, false, false, "random schemas (list order decoupled from dependencies), random selections: OpExtractBasis"});
   props.push_back({"maxpart", propMaxPart, 1500, 24000, false, false, "random schemas (list order decoupled from dependencies), random selections: OpMaxPart"});
   return pbt::main(argc, argv, "C13", props);
